@@ -5,5 +5,6 @@ CONSTANT EmitCase = FALSE
 CONSTANT EmitMod = 1
 CONSTANT Alphabet = "B"
 CONSTANT MCFuelC = 60
+CONSTANT NB = 17
 CONSTANT FUEL <- MCFuel
 INVARIANT NoWrapJumpPass
